@@ -63,6 +63,17 @@ var relations = []relation{
 		body: func(n int) string { return fmt.Sprintf(`error({code: %d, in: .})`, n) }},
 	{name: "iter-all", iter: true, itfn: func(v any, args []any) gojq.Iter { return gojq.NewIter(append([]any{v}, args...)...) },
 		body: func(n int) string { return "(" + strings.Join(append([]string{"."}, xs(n)...), ", ") + ")" }},
+	// the callback keeps the argument slice it was given: returned as the result array, or read
+	// lazily by the iterator after the call has returned
+	{name: "args-array", fn: func(v any, args []any) any { return args },
+		body: func(n int) string { return "[" + strings.Join(xs(n), ", ") + "]" }},
+	{name: "iter-args", iter: true, itfn: func(v any, args []any) gojq.Iter { return gojq.NewIter(args...) },
+		body: func(n int) string {
+			if n == 0 {
+				return "empty"
+			}
+			return "(" + strings.Join(xs(n), ", ") + ")"
+		}},
 	{name: "iter-empty", iter: true, itfn: func(v any, args []any) gojq.Iter { return gojq.NewIter[any]() }, body: func(n int) string { return "empty" }},
 	{name: "iter-then-error", iter: true, itfn: func(v any, args []any) gojq.Iter {
 		return gojq.NewIter[any](v, &valueErr{"late"}, "never")
@@ -101,6 +112,7 @@ var contexts = []string{
 	"try (CALL | error) catch .", "[CALL] | length", "(CALL) as [$p] | $p", "del(CALL)?", "to_entries? | map(CALL)", "[limit(3; repeat(CALL))]", "[CALL, CALL]",
 	"getpath([\"a\"])? | CALL", "[.. | CALL]", ".[0]? += CALL", "try (.a |= CALL) catch .", "[range(2) as $i | CALL]", "any(CALL; . == null)", "[CALL] | first?", "null | CALL",
 	"(CALL | tostring?) // 0", "{k: CALL}", "[{k: CALL}]", "\"v=\\(CALL)\"", "CALL | CALL",
+	"[CALL | . as $v | (3 + 4) | $v]", "[CALL | [., (1 + 2)]]", "[CALL as $v | (\"a\" | ltrimstr(\"b\")) | $v]",
 	// inside a path expression, in positions where the emitted value is discarded or only tested
 	"[path(CALL | empty)]", "[path(.a?, (CALL | select(false)), .b?)]", "[path(CALL // .x?)]", "[path((CALL | select(. == null)), .)]", "try [path(reduce (CALL) as $v (.; .))] catch \"E\"", "try [path(foreach (CALL) as $v (.; .; .))] catch \"E\"", "[paths(CALL | false)]?", "try [path(first((CALL | empty), .))] catch \"E\"",
 	"try del(CALL | empty) catch \"E\"", "try ((CALL | empty) |= 1) catch \"E\"", "try [path(if (CALL | not) then . else . end)] catch \"E\"", "try [path(. as $d | (CALL | empty), $d)] catch \"E\"", "try [path(limit(0; CALL), .)] catch \"E\"", "try [path(isempty(CALL) as $e | .)] catch \"E\"", "try [path(label $l | (CALL | break $l), .)] catch \"E\"",
@@ -110,7 +122,7 @@ var customInputs = []string{`null`, `1`, `[1,[2]]`, `{"a":[1,2],"b":null}`, `"s"
 
 func customChecks(ctx *common.Ctx) {
 	r := ctx.R
-	orc := ctx.NewOracle("custom", "a Go function registered with WithFunction/WithIterFunction (8 relations: tuple of input and arguments, identity, last argument, value errors, iterators incl. empty and failing ones; arities 0..30, 1–3 overlapping registrations of one name) vs the equivalent jq definitions, in 43 calling contexts × generator/erroring arguments × 6 inputs: outcomes (outputs, error values, invalid-path errors) must be identical; `builtins` must list exactly the registered name/arities; arities outside 0..30 must panic with `invalid arity`; distinct = distinct (context, arguments, relation, arity) combinations")
+	orc := ctx.NewOracle("custom", "a Go function registered with WithFunction/WithIterFunction (10 relations, two of which keep the argument slice they were handed: tuple of input and arguments, identity, last argument, value errors, iterators incl. empty and failing ones; arities 0..30, 1–3 overlapping registrations of one name) vs the equivalent jq definitions, in 43 calling contexts × generator/erroring arguments × 6 inputs: outcomes (outputs, error values, invalid-path errors) must be identical; `builtins` must list exactly the registered name/arities; arities outside 0..30 must panic with `invalid arity`; distinct = distinct (context, arguments, relation, arity) combinations")
 	distinct := map[string]bool{}
 	n := ctx.N(2500, 40000)
 	for k := 0; k < n; k++ {
